@@ -28,6 +28,8 @@
 #include <soundswallower/ckd_alloc.h>
 #include <soundswallower/configuration.h>
 #include <soundswallower/decoder.h>
+#include <soundswallower/dict2pid.h>
+#include <soundswallower/tmat.h>
 #include <soundswallower/dict.h>
 #include <soundswallower/err.h>
 #include <soundswallower/fsg_model.h>
@@ -687,6 +689,133 @@ cmd_json(const char *tag, int start_ms, int level)
     free(copy);
 }
 
+/* ---- C02: everything a declarative Viterbi network needs, as plain tables ----------------------------
+ * The search's own grammar (silence/alternate arcs added, nulls closed) through the public arc iterator, the
+ * dictionary pronunciations, and - for the phones that occur - the context-dependent model lookups through the
+ * dict2pid / model-definition tables (NOT read from the lextree, which is what is being checked):
+ *   ldiph[w][lc]   model of the first phone of multi-phone word w after left context lc
+ *   rssid[w][rc]   model of its last phone before right context rc
+ *   lrdiph[w][lc]  model of one-phone word w after lc (right context silence, the decoder's documented choice)
+ *   internal[w]    models of the phones in between;  ci[p] context-independent model (fillers)
+ * plus senone sequences, transition matrices, penalties.  Also marks the senones involved for `senscr'. */
+static void
+cmd_net(void)
+{
+    fsg_search_t *fs = (fsg_search_t *)d->search;
+    fsg_model_t *fsg = fs->fsg;
+    bin_mdef_t *m = d->acmod->mdef;
+    dict2pid_t *d2p = d->d2p;
+    int nci = bin_mdef_n_ciphone(m), sil = bin_mdef_ciphone_id(m, "SIL");
+    int i, w, k, first = 1, ne = bin_mdef_n_emit_state(m);
+    unsigned char *ssused = (unsigned char *)calloc(bin_mdef_n_sseq(m) + 1, 1);
+    unsigned char *tmused = (unsigned char *)calloc(d->acmod->tmat->n_tmat + 1, 1);
+
+    fprintf(vt_out, "{\"e\":\"Net\",\"n\":%d,\"start\":%d,\"final\":%d,\"sil\":%d,\"nci\":%d,\"pip\":%d,\"wip\":%d,\"arcs\":[",
+            fsg_model_n_state(fsg), fsg_model_start_state(fsg), fsg_model_final_state(fsg), sil, nci, (int)fs->pip, (int)fs->wip);
+    for (i = 0; i < fsg_model_n_state(fsg); ++i) {
+        fsg_arciter_t *it;
+        for (it = fsg_model_arcs(fsg, i); it; it = fsg_arciter_next(it)) {
+            fsg_link_t *l = fsg_arciter_get(it);
+            fprintf(vt_out, "%s[%d,%d,%d,%d]", first ? "" : ",", fsg_link_from_state(l), fsg_link_to_state(l),
+                    fsg_link_wid(l) < 0 ? 0 : fsg_link_wid(l) + 1, (int)(fsg_link_logs2prob(l) >> 10));
+            first = 0;
+        }
+    }
+    fprintf(vt_out, "],\"words\":[");
+    for (w = 0; w < fsg_model_n_word(fsg); ++w) {
+        const char *ws = fsg_model_word_str(fsg, w);
+        int32 wid = dict_wordid(d->dict, ws);
+        int np = wid == BAD_S3WID ? 0 : dict_pronlen(d->dict, wid);
+        int filler = wid != BAD_S3WID && fsg_model_is_filler(fsg, w);
+        fprintf(vt_out, "%s{\"w\":", w ? "," : "");
+        vt_str(vt_out, ws);
+        fprintf(vt_out, ",\"filler\":%s,\"ph\":[", filler ? "true" : "false");
+        for (k = 0; k < np; ++k)
+            fprintf(vt_out, "%s%d", k ? "," : "", (int)dict_pron(d->dict, wid, k));
+        fprintf(vt_out, "],\"tm\":[");
+        for (k = 0; k < np; ++k) {
+            int t = bin_mdef_pid2tmatid(m, dict_pron(d->dict, wid, k));
+            tmused[t] = 1;
+            fprintf(vt_out, "%s%d", k ? "," : "", t);
+        }
+        fprintf(vt_out, "]");
+        if (np == 0) {
+            fprintf(vt_out, "}");
+            continue;
+        }
+        if (filler) {
+            int ss = bin_mdef_pid2ssid(m, dict_pron(d->dict, wid, 0));
+            ssused[ss] = 1;
+            fprintf(vt_out, ",\"ci\":%d}", ss);
+            continue;
+        }
+        if (np == 1) {
+            fprintf(vt_out, ",\"lrdiph\":[");
+            for (k = 0; k < nci; ++k) {
+                int ss = dict2pid_lrdiph_rc(d2p, dict_pron(d->dict, wid, 0), k, sil);
+                ssused[ss] = 1;
+                fprintf(vt_out, "%s%d", k ? "," : "", ss);
+            }
+            fprintf(vt_out, "]}");
+            continue;
+        }
+        fprintf(vt_out, ",\"ldiph\":[");
+        for (k = 0; k < nci; ++k) {
+            int ss = dict2pid_ldiph_lc(d2p, dict_pron(d->dict, wid, 0), dict_pron(d->dict, wid, 1), k);
+            ssused[ss] = 1;
+            fprintf(vt_out, "%s%d", k ? "," : "", ss);
+        }
+        fprintf(vt_out, "],\"rssid\":[");
+        {
+            xwdssid_t *rs = dict2pid_rssid(d2p, dict_pron(d->dict, wid, np - 1), dict_pron(d->dict, wid, np - 2));
+            for (k = 0; k < nci; ++k) {
+                int ss = rs->ssid[rs->cimap[k]];
+                ssused[ss] = 1;
+                fprintf(vt_out, "%s%d", k ? "," : "", ss);
+            }
+        }
+        fprintf(vt_out, "],\"internal\":[");
+        for (k = 1; k < np - 1; ++k) {
+            int ss = dict2pid_internal(d2p, wid, k);
+            ssused[ss] = 1;
+            fprintf(vt_out, "%s%d", k > 1 ? "," : "", ss);
+        }
+        fprintf(vt_out, "]}");
+    }
+    fprintf(vt_out, "],\"sseq\":{");
+    first = 1;
+    for (i = 0; i < bin_mdef_n_sseq(m); ++i)
+        if (ssused[i]) {
+            fprintf(vt_out, "%s\"%d\":[", first ? "" : ",", i);
+            for (k = 0; k < ne; ++k) {
+                int sen = bin_mdef_sseq2sen(m, i, k);
+                if (sen >= 0 && sen < n_senset_alloc)
+                    senset[sen] = 1;
+                fprintf(vt_out, "%s%d", k ? "," : "", sen);
+            }
+            fputc(']', vt_out);
+            first = 0;
+        }
+    fprintf(vt_out, "},\"tp\":{");
+    first = 1;
+    for (i = 0; i < d->acmod->tmat->n_tmat; ++i)
+        if (tmused[i]) {
+            int a, b;
+            fprintf(vt_out, "%s\"%d\":[", first ? "" : ",", i);
+            for (a = 0; a < ne; ++a) {
+                fprintf(vt_out, "%s[", a ? "," : "");
+                for (b = 0; b <= ne; ++b)
+                    fprintf(vt_out, "%s%d", b ? "," : "", (int)d->acmod->tmat->tp[i][a][b]);
+                fputc(']', vt_out);
+            }
+            fputc(']', vt_out);
+            first = 0;
+        }
+    fprintf(vt_out, "},\"beam\":%d,\"pbeam\":%d,\"wbeam\":%d}\n", (int)fs->beam_orig, (int)fs->pbeam_orig, (int)fs->wbeam_orig);
+    free(ssused);
+    free(tmused);
+}
+
 /* ---- audio operations ------------------------------------------------------------------- */
 static unsigned long lcg;
 static int
@@ -1130,6 +1259,8 @@ main(int argc, char *argv[])
             if (sscanf(line, "%*s %63s %ld %ld", tag, &a, &b) != 3)
                 return 3;
             cmd_json(tag, (int)a, (int)b);
+        } else if (!strcmp(cmd, "net")) {
+            cmd_net();
         } else if (!strcmp(cmd, "senscr")) {
             if (sscanf(line, "%*s %ld", &a) != 1)
                 return 3;
